@@ -1,4 +1,4 @@
-import RnaVerif.Model.Pairs
+import RnaVerif.Model.PairUtil
 /-! Lemmas about `pairsUp` / `enumFrom'` shared by the stacking and clash proofs (core Lean only). -/
 namespace RnaVerif
 
